@@ -42,7 +42,10 @@
 // a drawn request shape (normal, wrong first message, half a request then pause then rest or reset,
 // oversized), a drawn dial-data script (correct exact/overshooting, short by 1..n-150 bytes, tiny
 // messages, varied message sizes incl. 8186 B, frames that are not protobuf, HOLLOW frames whose protobuf
-// length fields announce 1000..16000 data bytes while the frame carries 0..1000 of them, early close/reset, a
+// length fields announce 1000..16000 data bytes while the frame carries 0..1000 of them, a TRUNCATED LAST MESSAGE
+// (complete messages until about what one more message of 206..8192 bytes would carry is owed — exactly that, 100 or
+// 3000 less, 1 or 2000 more, or 1 byte — then the outer length prefix of that message and only 1, 2, 100, half or
+// all-but-one bytes of its body, then CloseWrite while the response is still read), early close/reset, a
 // message of more than 8192 B, pauses before / in the middle), a drawn dial-back handler (answer, delayed
 // answer, reset, close without answer) and a drawn stage at which the client resets the request stream (never |
 // when the dial-back nonce arrives, before the dial-back is answered — the server's response write then fails |
@@ -147,6 +150,11 @@
 //	private /quic-v1 addresses treated as dialable                      dial-to-ineligible-address, no-eligible-address-not-refused   t 4..21
 //	limiter keyed by the observed IP instead of the peer id             rejected-below-every-limit (two clients behind the NAT)       t 2..8
 //	policy also compares ports                                          amplification/dial-without-dial-data-request   t 1..3
+//
+// Fourth round seeded change (VERIF_REPO tree, 45 s, 8 workers, all 8 report within 25 runs each): msgReader.ReadMsg
+// returns the full declared-length buffer when the stream ends mid-message -> amplification/dial-before-dial-data-complete
+// (truncated last message: asked 97515 B, 89333 B written incl. 2 bytes of a message announced as 8192, CloseWrite, D
+// dials the foreign address).
 //
 // Unchanged tree: 0 violations over 15959 runs (seed 1) + 7330 runs (seed 77) + the quick tier (first round); after the
 // second-round strengthening a 240 s x 8 workers soak and the quick tier are clean; ./check selftest identical.
@@ -300,7 +308,7 @@ type profile struct {
 	gap                      [10]int // index into gaps
 	variant                  [5]int
 	length                   [5]int // 1 | 2-4 | 0 | 50-52 | 120 entries
-	dd                       [8]int
+	dd                       [9]int
 	holdBefore               [5]int // index into holds
 	reset                    [5]int // stage at which the client resets the request stream (resetNever ...)
 }
@@ -317,33 +325,33 @@ var profiles = []profile{
 		entry:   [14]int{3, 4, 3, 3, 1, 1, 1, 3, 2, 2, 1, 1, 1, 1},
 		gap:     [10]int{8, 2, 3, 3, 2, 3, 2, 1, 2, 1},
 		variant: [5]int{14, 1, 1, 1, 1}, length: [5]int{8, 6, 1, 2, 1},
-		dd: [8]int{6, 5, 2, 3, 1, 2, 1, 3}, holdBefore: [5]int{8, 2, 2, 1, 1}, reset: [5]int{16, 1, 1, 1, 1}},
+		dd: [9]int{6, 5, 2, 3, 1, 2, 1, 3, 3}, holdBefore: [5]int{8, 2, 2, 1, 1}, reset: [5]int{16, 1, 1, 1, 1}},
 	{maxPeers: 2, minReq: 2, maxReq: 8, peerBias: 4,
 		entry:   [14]int{1, 1, 5, 5, 1, 1, 1, 0, 0, 0, 0, 0, 0, 0},
 		gap:     [10]int{10, 3, 2, 1, 0, 0, 0, 0, 0, 0},
 		variant: [5]int{1, 0, 0, 0, 0}, length: [5]int{6, 1, 0, 0, 0},
-		dd: [8]int{10, 2, 0, 1, 1, 1, 0, 1}, holdBefore: [5]int{2, 4, 4, 1, 0}, reset: [5]int{10, 2, 2, 1, 1}},
+		dd: [9]int{10, 2, 0, 1, 1, 1, 0, 1, 1}, holdBefore: [5]int{2, 4, 4, 1, 0}, reset: [5]int{10, 2, 2, 1, 1}},
 	{maxPeers: 3, minReq: 3, maxReq: 14,
 		entry:   [14]int{1, 8, 1, 2, 0, 1, 0, 1, 0, 0, 0, 0, 0, 0},
 		gap:     [10]int{4, 1, 2, 3, 4, 4, 3, 2, 3, 2},
 		variant: [5]int{20, 0, 1, 0, 0}, length: [5]int{8, 2, 0, 0, 0},
-		dd: [8]int{4, 2, 0, 0, 0, 6, 0, 0}, holdBefore: [5]int{10, 1, 1, 0, 0}, reset: [5]int{1, 0, 0, 0, 0}},
+		dd: [9]int{4, 2, 0, 0, 0, 6, 0, 0, 0}, holdBefore: [5]int{10, 1, 1, 0, 0}, reset: [5]int{1, 0, 0, 0, 0}},
 	{maxPeers: 3, minReq: 3, maxReq: 14, peerBias: 3,
 		entry:   [14]int{1, 8, 1, 2, 0, 1, 0, 1, 0, 0, 0, 0, 0, 0},
 		gap:     [10]int{4, 1, 2, 3, 4, 4, 3, 2, 3, 2},
 		variant: [5]int{20, 0, 1, 0, 0}, length: [5]int{8, 2, 0, 0, 0},
-		dd: [8]int{4, 2, 0, 0, 0, 6, 0, 0}, holdBefore: [5]int{10, 1, 1, 0, 0}, reset: [5]int{1, 0, 0, 0, 0}},
+		dd: [9]int{4, 2, 0, 0, 0, 6, 0, 0, 0}, holdBefore: [5]int{10, 1, 1, 0, 0}, reset: [5]int{1, 0, 0, 0, 0}},
 	{maxPeers: 3, minReq: 3, maxReq: 14,
 		entry:   [14]int{0, 2, 4, 6, 1, 1, 0, 0, 0, 0, 0, 0, 0, 0},
 		gap:     [10]int{4, 1, 2, 3, 4, 4, 3, 2, 3, 2},
 		variant: [5]int{1, 0, 0, 0, 0}, length: [5]int{8, 2, 0, 0, 0},
-		dd: [8]int{3, 2, 0, 0, 0, 8, 0, 2}, holdBefore: [5]int{10, 1, 0, 0, 0}, reset: [5]int{1, 0, 0, 0, 0}},
+		dd: [9]int{3, 2, 0, 0, 0, 8, 0, 2, 2}, holdBefore: [5]int{10, 1, 0, 0, 0}, reset: [5]int{1, 0, 0, 0, 0}},
 	// 5 = slot accounting: the draws below are overridden by the role of each request
 	{maxPeers: 2, minReq: 4, maxReq: 4,
 		entry:   [14]int{1, 0, 0, 0, 0, 0, 0, 0, 0, 0, 0, 0, 0, 0},
 		gap:     [10]int{1, 0, 0, 0, 0, 0, 0, 0, 0, 0},
 		variant: [5]int{1, 0, 0, 0, 0}, length: [5]int{1, 0, 0, 0, 0},
-		dd: [8]int{1, 0, 0, 0, 0, 0, 0, 0}, holdBefore: [5]int{1, 0, 0, 0, 0}, reset: [5]int{1, 0, 0, 0, 0}},
+		dd: [9]int{1, 0, 0, 0, 0, 0, 0, 0, 0}, holdBefore: [5]int{1, 0, 0, 0, 0}, reset: [5]int{1, 0, 0, 0, 0}},
 }
 
 // C16_BASIC_DIALER=1 gives the service a basic host (identify) as its dialer host instead of the blank host that
@@ -679,6 +687,10 @@ func run(t *testing.T, tape *simrt.Tape) *common.Outcome {
 		p.resetAt = g.Weighted(pf.reset[:]...)
 		if d.mode == ddHollow {
 			d.sizeA, d.sizeB = hollowAnnounced[d.sizeA%len(hollowAnnounced)], hollowCarried[d.sizeB%len(hollowCarried)]
+		}
+		if d.mode == ddTruncated {
+			l := truncLens[d.sizeA%len(truncLens)]
+			d.sizeA, d.sizeB = l, []int{1, 2, l / 2, l - 1, 100}[d.sizeB%5]
 		}
 		if stratum == 5 {
 			// the role of the request in the slot-accounting scenario overrides what was drawn above
